@@ -67,6 +67,22 @@ def case_strategy(desc):
         "new": tc.len_spec(True), "new_seed": st.integers(0, 255)})
 
 
+def t3t_big_case():
+    """Type 3 Tags whose NDEF area goes beyond 64 KiB (Nmaxb >= 4097: the
+    24 bit Ln needs its top byte) with lengths around 65536"""
+    desc = st.fixed_dictionaries({
+        "kind": st.just("t3t"), "ver": st.just(0x10),
+        "nbr": st.sampled_from([12, 15]), "nbw": st.sampled_from([8, 12]),
+        "nmaxb": st.sampled_from([4096, 4097, 4100, 4200]),
+        "phys_extra": st.just(0), "nbr_extra": st.just(0),
+        "nbw_extra": st.just(0), "filler": st.sampled_from([0x00, 0xA5])})
+    ln = st.sampled_from([["abs", 65535], ["abs", 65536], ["abs", 65537],
+                          ["abs", 65600], ["cap", 0], ["abs", 300]])
+    return st.fixed_dictionaries({
+        "tag": desc, "old": ln, "old_seed": st.integers(0, 255),
+        "new": ln, "new_seed": st.integers(0, 255)})
+
+
 def nontrivial(b, desc, L, cap):
     if L == 0:
         return False
@@ -774,6 +790,12 @@ LEGS = [
                           tc.t1t_room()), 1800, 30000),
     _leg("t3t", tc.t3t_desc("t3t"), 1500, 30000),
     _leg("t3e", tc.t3t_desc("t3e"), 1200, 20000),
+    Leg("t3t-64k", run=run, gen=lambda tier: t3t_big_case(), quick=24,
+        thorough=200, shards_quick=8, shards_thorough=16, nt_floor=0.3,
+        rule="Type 3 Tags with Nmaxb 4096..4200 (NDEF area at / beyond 64 "
+             "KiB, where the 24 bit length needs its top byte) x old / new "
+             "lengths 65535, 65536, 65537, 65600, capacity, 300; same round "
+             "trip oracle; non-trivial as in the other legs."),
     _leg("t4t", tc.t4t_desc(), 1500, 30000),
     Leg("history-sectors", run=run_history,
         gen=lambda tier: tc.sector_hist(), quick=1200, thorough=20000,
